@@ -374,8 +374,13 @@ func runCase(t *testing.T, ci caseIn, fresh bool) []txObs {
 	w := shared
 	w.beginCase(t, ci.MinRate)
 	var obs []txObs
+	capRaw := sdkmath.LegacyNewDecWithPrec(25, 2)
 	for _, tx := range ci.Txs {
-		obs = append(obs, w.runTx(tx))
+		o := w.runTx(tx)
+		obs = append(obs, o)
+		if decOf(o.AllMax).GT(capRaw) {
+			shared = nil // a validator above the cap stays in this chain's state: do not let it leak into later cases
+		}
 	}
 	return obs
 }
